@@ -55,7 +55,9 @@ func c21Helper(c c21Case) string {
 	if c.Kind == "exit" {
 		return fmt.Sprintf("sh -c 'exit %d'", c.N)
 	}
-	return fmt.Sprintf("sh -c 'ulimit -c 0; kill -%d $$; sleep 5'", c.N)
+	// `env --default-signal` resets every signal disposition first: a check started in the background by a
+	// shell without job control inherits SIGINT/SIGQUIT as ignored, and the helper would then survive them.
+	return fmt.Sprintf("env --default-signal sh -c 'ulimit -c 0; kill -%d $$; sleep 5'", c.N)
 }
 
 func (c21) Run(raw json.RawMessage) Result {
